@@ -13,7 +13,7 @@ import fw
 
 ID = 'C13'
 LEVEL = 'proof'
-LEAN_TARGETS = ['BareProofs.C13']
+LEAN_TARGETS = ['BareProofs.C13', 'BareProofs.C13Patterns']
 DRIVER = 'drv_c13'
 DRIVER_ROOT = 'Drv.C13'
 GEN = ['Regex']
@@ -64,16 +64,30 @@ _DP = r'\d(?:_?\d)*'
 RE_DOC_FLOAT = re.compile(r'[+-]?(?:(?:%s)?\.%s|%s\.?)(?:[eE][+-]?%s)?' % (_DP, _DP, _DP, _DP))
 
 
+RE_DOC_FLOAT_PARTS = re.compile(r'([+-]?)(\d*)\.?(\d*)(?:[eE]([+-]?\d+))?')
+
+
 def ref_float(text):
     """The finite float the documentation says `text` denotes, or None if `text` is not a (finite) number."""
     body = text.strip()
     if not RE_DOC_FLOAT.fullmatch(body):
         return None
-    try:
-        val = float(Fraction(body.replace('_', '')))
-    except OverflowError:
-        return None
-    return val
+    sign, ip, fp, exp = RE_DOC_FLOAT_PARTS.fullmatch(body.replace('_', '')).groups()
+    digits = (ip + fp).lstrip('0' + ''.join(chr(z) for z in UNI_ALL_ZEROS))
+    e10 = int(exp or '0') - len(fp)
+    if not digits or len(digits) + e10 < -400:
+        val = 0.0                                  # zero, or far below the smallest subnormal
+    elif len(digits) + e10 > 400:
+        return None                                # overflows to inf: not a finite number
+    else:
+        try:
+            val = float(Fraction(int(digits)) * Fraction(10) ** e10)
+        except OverflowError:
+            return None
+    return -val if sign == '-' else val
+
+
+UNI_ALL_ZEROS = [c for c in range(0x80, 0x110000) if unicodedata.decimal(chr(c), None) == 0]
 
 
 def _digit_value(ch):
@@ -388,8 +402,8 @@ def int_cases(rng, n):
 
 
 UNI_DIGIT_ZEROS = [0x660, 0x6f0, 0x966, 0xff10, 0x1d7ce, 0x1e950, 0x9e6]
-WS = ['', '', '', '', ' ', '  ', '\t', '\n', ' \r\n', '\x0b', '\x0c', '\xa0', chr(0x2003), chr(0x3000), '\x1c', '\x1f', chr(0xfeff), '\x85',
-      chr(0x200b)]
+WS_ASCII = ['', '', '', '', ' ', '  ', '\t', '\n', ' \r\n', '\x0b', '\x0c']
+WS = WS_ASCII * 4 + ['\xa0', chr(0x2003), chr(0x3000), '\x1c', '\x1f', chr(0xfeff), '\x85', chr(0x200b)]
 MUT_ALPHABET = list('0123456789+-._eExXoObBinfatyINFATY zZgG9 \t\n/,\'"') + [chr(0x663), chr(0xff15), '\xa0', '\x00', '\xb2', chr(0x2167),
                                                                              chr(0x661)]
 
@@ -522,7 +536,7 @@ def stream_numtext(ctx):
     rng = ctx.rng('numtext')
     xs = [float.fromhex(r['double']) for r in load_corpus() if 'double' in r]
     xs += directed_doubles()
-    xs += random_doubles(rng, ctx.scale(9000, 215000))
+    xs += random_doubles(rng, ctx.scale(12000, 215000))
     script_every = ctx.scale(1, 1)
     reqs = []
     for x in xs:
@@ -600,7 +614,7 @@ def parser_cases(ctx):
         cases.append(('numberParseInt', '1' * nd, 16, 'digit-limit'))
         cases.append(('numberParseInt', ' -' + '0' * nd, 10, 'digit-limit'))
         cases.append(('numberParseInt', '1_' * (nd - 1) + '1', 9, 'digit-limit'))
-    n = ctx.scale(7000, 160000)
+    n = ctx.scale(9000, 160000)
     for _ in range(n):
         if rng.random() < 0.55:
             cases.append(('numberParseFloat', gen_float_text(rng), None, 'gen'))
